@@ -12,6 +12,8 @@ import (
 	"strings"
 	"time"
 
+	"verifharness/corelex"
+
 	"github.com/alecthomas/participle/v2"
 	"github.com/alecthomas/participle/v2/lexer"
 )
@@ -56,9 +58,7 @@ type gGrammar struct {
 	Trailing bool  `json:"trailing"`
 }
 
-var coreLexer = lexer.MustSimple([]lexer.SimpleRule{
-	{"Ident", `[a-zA-Z]+`}, {"Int", `[0-9]+`}, {"Punct", `[^\sa-zA-Z0-9#]`}, {"Comment", `#[a-z]*#`}, {"WS", `\s+`},
-})
+var coreLexer = corelex.Lexer
 
 var ifaces = map[string]reflect.Type{
 	"U0":    reflect.TypeOf((*U0)(nil)).Elem(),
